@@ -304,3 +304,10 @@ class ParsedSubsetState(SubsetState):
         if view is not None:
             result = result[view]
         return result
+
+    def __gluestate__(self, context):
+        return dict(parsed=context.do(self._parsed))
+
+    @classmethod
+    def __setgluestate__(cls, rec, context):
+        return cls(context.object(rec['parsed']))
